@@ -138,6 +138,6 @@ Definition hdr_case (k : Z) (g : grid) : string :=
   | Ok hd => jrender (JA (map (fun p => JA [JN (Z.of_nat (fst p)); JS (snd p)]) hd))
   | Err e => "E:" +s e
   end.
-Definition E := CEmpty.
-Definition T := CStr.
-Definition N := CNum.
+Definition xE := CEmpty.
+Definition xT := CStr.
+Definition xN := CNum.
